@@ -32,6 +32,14 @@ TOK_M = ["python_version", "sys_platform", "extra", "os.name", "platform_release
          '"3.8"', "'linux'", '"a b"', '""', " ", "'", '"', "foo", "3.8", ";", "python_full_version", '"3.*"', '"1!2"']
 TOK_R = ["requests", "Foo_Bar", "[", "]", "extra1", ",", "(", ")", ">=1.0", "<2", "==1.*", ";", "@", "https://example.com/a-1.0.tar.gz", "git+https://github.com/x/y.git",
          "@main", "#subdirectory=sub", "#egg=z", " ", 'python_version >= "3.8"', "extra == 'a'", "and", "file:///tmp/x", "./local", "~=1.0", "!", "git+ssh://git@github.com:x/y.git"]
+def local_neighbour(rng):
+    """a version next to a clause on a local build of the very same version (Version.allows is deliberately weak there, and
+    the union / intersection code has branches for it), as two '||' groups or one comma set, in both orders"""
+    b = rng.choice(["1", "1.0", "2.3.4", "1!1.0.post1", "0.5", "1.0rc1"]); L = rng.choice(["local", "ubuntu.1", "1", "cpu"])
+    eq = rng.choice(["", "=="]); op = rng.choice([">=", ">=", ">", "<=", "<", "!=", "=="]); tail = rng.choice(["", "", ",<9", " || 9.*"])
+    return rng.choice([f"{eq}{b} || {op}{b}+{L}{tail}", f"{op}{b}+{L}{tail} || {eq}{b}", f"{eq}{b}+{L} || {op}{b}", f"{eq}{b},{op}{b}+{L}",
+                       f"0.1 || {eq}{b} || {op}{b}+{L} || 9.*"])
+
 def fuzz(rng, toks, valid):
     m = rng.random()
     if m < 0.35:
@@ -97,6 +105,7 @@ def run(tier):
     gens = {
         "version": (Version.parse, TOK_V, lambda: GV.gen_version(rng)[0]),
         "constraint": (parse_constraint.__wrapped__, TOK_C, lambda: GC.gen_constraint(rng, pool(), wild_suffix=True)),
+        "constraint_local_neighbour": (parse_constraint.__wrapped__, TOK_C, lambda: local_neighbour(rng)),
         "generic": (gparse.__wrapped__, TOK_G, lambda: rng.choice(["==linux", "!=win32, !=darwin", "linux || darwin", "'a' in", "'x y' not in"])),
         "extra": (xparse.__wrapped__, TOK_G, lambda: rng.choice(["==a", "!=a, !=b", "a || b"])),
         "marker": (parse_marker.__wrapped__, TOK_M, lambda: MI.gen_marker(rng, depth=2, leaves=rng.randint(1, 3))[0]),
@@ -109,7 +118,7 @@ def run(tier):
     mreq, midx = [], []
     for kind, (f, toks, valid) in gens.items():
         for _ in range(n // len(gens)):
-            s = valid() if (kind.endswith("_same_variable") or kind == "marker_platform_release") and rng.random() < 0.8 else fuzz(rng, toks, valid)
+            s = valid() if (kind.endswith("_same_variable") or kind in ("marker_platform_release", "constraint_local_neighbour")) and rng.random() < 0.8 else fuzz(rng, toks, valid)
             o = outcome(f, s)
             R.case(dict(parser=kind, input=s[:300]), nontrivial=True); R.count(f"{kind}_{o[0]}" + ("_" + o[1] if o[0] == "err" else ""))
             case = dict(parser=kind, input=s)
@@ -127,11 +136,12 @@ def run(tier):
                 except Exception as e:  # noqa
                     R.fail(case, f"returned a value that cannot be printed: {type(e).__name__}: {e}")
             # model: same outcome class (and the same printed value) on ASCII input
-            if kind in ("version", "constraint", "generic", "extra") and all(ord(c) < 128 for c in s) and "\x1e" not in s and "\x1f" not in s and len(s) < 400:
-                if kind == "version": mreq.append(["vparse", s])
-                elif kind == "constraint": mreq.append(["cparse_text", "0", "1", s])
-                else: mreq.append(["gparse", "1" if kind == "extra" else "0", s])
-                midx.append((kind, s, o))
+            mk = "constraint" if kind == "constraint_local_neighbour" else kind
+            if mk in ("version", "constraint", "generic", "extra") and all(ord(c) < 128 for c in s) and "\x1e" not in s and "\x1f" not in s and len(s) < 400:
+                if mk == "version": mreq.append(["vparse", s])
+                elif mk == "constraint": mreq.append(["cparse_text", "0", "1", s])
+                else: mreq.append(["gparse", "1" if mk == "extra" else "0", s])
+                midx.append((mk, s, o))
     for (kind, s, o), m in zip(midx, M.many(mreq)):
         if o[0] == "hang": continue
         exp_ok = o[0] == "ok"
